@@ -103,8 +103,19 @@ MMove == /\ (Consume("deliver") \/ Consume("rdeliver") \/ Consume("reopen"))
          /\ UNCHANGED kinds
          /\ StatesOK(kinds, Ev.st) /\ Remember(Ev.st) /\ prev' = Ev.st
 \* ---- C13
+\* the unbounded forward listing taken at the same moment is the replica's log order: it holds every
+\* entry once, parents before children, is the creation order when the history is causally total, and
+\* replicas holding the same entries list them in the same order
+FullOK == LET has == SetOf(Ev.has) IN
+            /\ SetOf(Ev.full) = has /\ Len(Ev.full) = Cardinality(has)
+            /\ \A i, j \in DOMAIN Ev.full : (i < j /\ Ev.full[i] \in DOMAIN kinds /\ Ev.full[j] \in DOMAIN kinds)
+                   => Ev.full[j] \notin kinds[Ev.full[i]].past
+            /\ (Total => Ev.full = SetToSortSeq(has, <))
+            /\ \A m \in memo : (m[1] = has \cup {-1}) => m[2] = Ev.full     \* key has+{-1}: "listing of this set"
+\* every (since, until, reverse) listing is the contiguous range of that order; errors exactly for unknown
+\* identifiers or since after until
 RangeOK == LET has == SetOf(Ev.has)
-               order == SetToSortSeq(has, <)
+               order == Ev.full
                known(x) == x = 0 \/ x \in has
                pos(x) == CHOOSE k \in DOMAIN order : order[k] = x
                i == IF Ev.since = 0 THEN 1 ELSE IF known(Ev.since) THEN pos(Ev.since) ELSE 0
@@ -114,8 +125,9 @@ RangeOK == LET has == SetOf(Ev.has)
               ELSE /\ Ev.ok
                    /\ Ev.out = (IF Ev.rev THEN Reverse(SubSeq(order, i, j)) ELSE SubSeq(order, i, j))
 MList == /\ Consume("list")
-         /\ UNCHANGED <<kinds, memo>> /\ prev' = Ev.st
-         /\ (Prop = "C13" /\ Total) => RangeOK
+         /\ UNCHANGED kinds /\ prev' = Ev.st
+         /\ IF Prop = "C13" THEN FullOK /\ RangeOK /\ memo' = memo \cup {<<SetOf(Ev.has) \cup {-1}, Ev.full>>}
+            ELSE UNCHANGED memo
 MNext == MReset \/ MOp \/ MMove \/ MList
 MInit == l = 1 /\ kinds = <<>> /\ memo = {} /\ prev = <<>> /\ TLCSet(42, 1)
 MSpec == MInit /\ [][MNext]_mvars
